@@ -41,7 +41,7 @@ def power_spectrum(mask, pixelscale, rms, half_power_freq, exp, seed=None):
     rng = np.random.default_rng(seed)
 
     # Define a frequency grid in units of cycles/px
-    n, m = mask.shape
+    m, n = mask.shape
     yy, xx = np.mgrid[0:m, 0:n]
     yy = (yy - (np.floor(m / 2) + 1)) / m
     xx = (xx - (np.floor(n / 2) + 1)) / n
